@@ -235,6 +235,18 @@ def dec(rng, lo, hi, nd=3):
     return f"{s}{v // q}.{v % q:0{nd}d}"
 
 
+def sparse_tilt(rng, H, p=0.4):
+    """3D triclinic cells with only some of the three tilt factors (xy, xz, yz) non-zero — in place; code that tests "is the
+    cell tilted" on part of the matrix is wrong on exactly these"""
+    if len(H) < 3 or rng.random() >= p:
+        return H
+    keep = rng.choice([[0], [1], [2], [0, 1], [0, 2], [1, 2]])
+    for n, (i, j) in enumerate([(1, 0), (2, 0), (2, 1)]):
+        if n not in keep:
+            H[i][j] = "0" if isinstance(H[i][j], str) else type(H[i][j])(0)
+    return H
+
+
 def unfold_positions(rng, pos, H, ppp=None, frac=0.35, mmax=3):
     """unfolded coordinates (an `xu` trajectory): a fraction of the particles is moved by whole cell vectors
     Σ_a m_a·H[a] (row-vector convention, m_a ∈ −mmax..mmax, only along periodic axes), exactly, on the decimal grid.
